@@ -221,6 +221,11 @@ def _table_lookups(f: FuncInfo):
         if isinstance(n, ast.Compare) and len(n.ops) == 1 and isinstance(n.ops[0], (ast.In, ast.NotIn)) and isinstance(n.comparators[0], ast.Name) \
                 and n.comparators[0].id in stored:
             out.append(n)
+        # the same lookup spelled `TABLE.get(K)` (then tested against None)
+        if isinstance(n, ast.Call) and isinstance(n.func, ast.Attribute) and n.func.attr in ("get", "setdefault") and isinstance(n.func.value, ast.Name) \
+                and n.func.value.id in stored and n.args:
+            n.left = n.args[0]  # the key expression, where the membership form has its left operand
+            out.append(n)
     return out
 
 
@@ -678,6 +683,12 @@ def rule_r10(ctx):
                 txt = norm(e)
                 if f".{attr}" in txt and (".name" in txt or not name_needed):
                     return True
+                # values taken from a helper of the module that enumerates them (`for v in _iter_boundary_values(graph)`)
+                for c in ast.walk(e):
+                    if isinstance(c, ast.Call) and isinstance(c.func, ast.Name) and c.func.id in f.module.functions:
+                        g = f.module.functions[c.func.id]
+                        if any(isinstance(x, ast.Attribute) and x.attr == attr for x in ast.walk(g.node)) and (".name" in txt or not name_needed):
+                            return True
                 if name_needed and ".name" not in txt:
                     return False
                 p = getattr(site, "_parent", None)
